@@ -5,6 +5,7 @@ package proxy
 import (
 	"context"
 	"fmt"
+	"net/http"
 	"reflect"
 	"strconv"
 	"strings"
@@ -12,6 +13,7 @@ import (
 
 	"reservoir/cache"
 	"reservoir/metrics"
+	"reservoir/utils/bytesize"
 	"reservoir/zzverif/vnet"
 	"reservoir/zzverif/vrun"
 	"reservoir/zzverif/vsched"
@@ -30,7 +32,13 @@ type psched struct {
 	Evictor  string `json:"evictor"`  // "" | delete | tick
 	Slow     bool   `json:"slow"`     // clients read slowly (yield per written chunk)
 	AdvanceS int    `json:"advance_s"` // a thread advances the clock by that many seconds at any point
-	Prop     string `json:"prop"`
+	TickS    int    `json:"tick_s"`    // cleanup interval in seconds; a thread lets one interval pass (janitor cycle) at any point
+	LimitTo  int64  `json:"limit_to"`  // a thread changes max_cache_size to this value at any point (config-change event)
+	// Overwrite "range-get": a further client sends a Range request for the same URL; the origin
+	// ignores Range and answers 200 with a NEW version (other size, other ETag), which the proxy
+	// stores under the same key outside any coalesced flight
+	Overwrite string `json:"overwrite"`
+	Prop      string `json:"prop"`
 }
 
 var demotedAtomics map[uintptr]bool
@@ -80,9 +88,11 @@ func scenarioProxySched(c *vrun.Ctx) {
 		var version int
 		var preLog int
 		var evicted bool
+		var overwriter *vnet.Resp
 		body := func() {
+			overwriter = nil
 			vtime.Reset()
-			env := newEnv(envOpts{Backend: p.Backend, DefaultMaxAgeS: 1000})
+			env := newEnv(envOpts{Backend: p.Backend, DefaultMaxAgeS: 1000, CleanupIntervalS: p.TickS})
 			refreshProxyDemoted(env.cfg)
 			uri := "/r"
 			res := &vnet.Res{Name: "r", Size: 40, ETag: vnet.ETagFor("r", 1), Headers: vnet.H{{"Cache-Control", "max-age=100"}}}
@@ -112,7 +122,16 @@ func scenarioProxySched(c *vrun.Ctx) {
 			env.origin.Gate = func(o *vnet.Origin, rec *vnet.ReqRec) {
 				if !gated {
 					gated = true
-					vsched.Quiesce()
+					vsched.Gate("first-origin-answer")
+				}
+			}
+			if p.Overwrite == "range-get" {
+				env.origin.Custom = func(o *vnet.Origin, req *http.Request, rec *vnet.ReqRec) *http.Response {
+					if req.Header.Get("Range") != "" {
+						res.Size += 15
+						o.Bump(uri)
+					}
+					return nil
 				}
 			}
 			results = make([]clientResult, p.Clients)
@@ -129,11 +148,22 @@ func scenarioProxySched(c *vrun.Ctx) {
 					results[i].resp = vnet.ServeRecorded(env.p, raw, ctxs[i], rec)
 				})
 			}
+			if p.Overwrite == "range-get" {
+				vsched.GoHarness("range-client", func() {
+					overwriter = vnet.ServeRecorded(env.p, rawRequest("GET", uri, vnet.H{{"Range", "bytes=0-9"}}, ""), nil, vnet.NewRecorder("GET"))
+				})
+			}
 			if p.Cancel > 0 {
 				vsched.GoHarness("disconnect"+strconv.Itoa(p.Cancel), func() {
 					cancels[p.Cancel-1]()
 					results[p.Cancel-1].canceled = true
 				})
+			}
+			if p.TickS > 0 {
+				vsched.GoHarness("clock-tick", func() { vtime.Advance(time.Duration(p.TickS) * time.Second) })
+			}
+			if p.LimitTo > 0 {
+				vsched.GoHarness("limit-change", func() { env.cfg.Cache.MaxCacheSize.Overwrite(bytesize.ByteSize(p.LimitTo)) })
 			}
 			if p.AdvanceS > 0 {
 				vsched.GoHarness("clock", func() { vtime.Advance(time.Duration(p.AdvanceS) * time.Second) })
@@ -183,12 +213,26 @@ func scenarioProxySched(c *vrun.Ctx) {
 					cand, why := vnet.Identify([]byte(r.resp.Body), cands)
 					if why != "" {
 						c.Violation(p.Prop+"/"+p.Name+"/incomplete-or-mixed-body", who+" received a body that is no complete origin body: "+why, x)
-					} else if cand.V != version && !(p.Start == "fresh") && p.AdvanceS == 0 {
+					} else if et := r.resp.Header.Get("ETag"); et != vnet.ETagFor(cand.R, cand.V) {
+						c.Violation(p.Prop+"/"+p.Name+"/mispaired-validator", fmt.Sprintf("%s received the body of version %d with ETag %s", who, cand.V, et), x)
+					} else if cl := r.resp.Header.Get("Content-Length"); cl != "" && cl != strconv.Itoa(len(r.resp.Body)) {
+						c.Violation(p.Prop+"/"+p.Name+"/mispaired-length", fmt.Sprintf("%s received %d body bytes (version %d) under Content-Length %s", who, len(r.resp.Body), cand.V, cl), x)
+					} else if cand.V != version && !(p.Start == "fresh") && p.AdvanceS == 0 && p.Overwrite == "" {
 						c.Violation(p.Prop+"/"+p.Name+"/outdated-body", fmt.Sprintf("%s received version %d, the origin's current version is %d", who, cand.V, version), x)
 					}
 				}
 			}
-			if p.Prop == "C05" && p.Outcome == "cacheable" && p.Cancel == 0 && p.Evictor == "" {
+			if overwriter != nil {
+				switch {
+				case overwriter.Dropped || overwriter.Panic != "":
+					c.Violation(p.Prop+"/"+p.Name+"/no-response", "the range client got no response ("+overwriter.Err+overwriter.Panic+")", x)
+				case overwriter.Status != 200 && overwriter.Status != 206:
+					c.Violation(p.Prop+"/"+p.Name+"/wrong-status/"+strconv.Itoa(overwriter.Status), fmt.Sprintf("the range client got status %d", overwriter.Status), x)
+				case overwriter.Err != "":
+					c.Violation(p.Prop+"/"+p.Name+"/broken-body", "range client: "+overwriter.Err, x)
+				}
+			}
+			if p.Prop == "C05" && p.Outcome == "cacheable" && p.Cancel == 0 && p.Evictor == "" && p.Overwrite == "" {
 				want := 1
 				if p.Start == "fresh" {
 					want = 0
